@@ -10,13 +10,15 @@ import itertools
 KINDS = ("opt", "list", "dict", "vtuple", "member", "bare")
 # links that reach the target class through a NewType / a value alias declared AFTER the classes (`next: Optional[NextId]`,
 # `NextId = NewType("NextId", Node)`): only in the small extra topologies (extra_topologies), not in the full product
-KINDS_X = ("optnt", "optalias")
+KINDS_X = ("optnt", "optalias", "pipe")  # pipe: a bracket-free PEP 604 union mixing builtin members with the class, `int | C1 | str`
 
 
 def _ann(kind, tgt, future, hname=None):
     q = tgt if future else f'"{tgt}"'
     if kind == "opt":
         return f"typing.Optional[{q}]", "None"
+    if kind == "pipe":
+        return (f"int | {tgt} | str" if future else f'"int | {tgt} | str"'), "0"
     if kind in KINDS_X:
         wq = hname if future else f'"{hname}"'
         return f"typing.Optional[{wq}]", "None"
@@ -52,7 +54,7 @@ class Topo:
         self.links = links
 
     def key(self):
-        ab = {"optnt": "N", "optalias": "A"}
+        ab = {"optnt": "N", "optalias": "A", "pipe": "P"}
         return f"n{self.n}:" + ";".join(",".join(f"{t}{ab.get(k, k[0])}" for t, k in ls) for ls in self.links)
 
     def kinds(self):
@@ -129,7 +131,9 @@ class Topo:
                 # a bare link always carries a value; at the horizon it is a terminal node (its own links stopped)
                 w[f"l{j}"] = child if go else self.wire(t, 0, full, 10**6, ints)
                 continue
-            if k == "opt" or k in KINDS_X:
+            if k == "pipe":
+                w[f"l{j}"] = child if go else 0
+            elif k == "opt" or k in KINDS_X:
                 w[f"l{j}"] = child
             elif k == "list":
                 w[f"l{j}"] = [child] if go else []
@@ -149,7 +153,9 @@ class Topo:
             if k == "bare":
                 kw[f"l{j}"] = child if go else self.expected(ns, t, 0, full, 10**6, flavour)
                 continue
-            if k == "opt" or k in KINDS_X:
+            if k == "pipe":
+                kw[f"l{j}"] = child if go else 0
+            elif k == "opt" or k in KINDS_X:
                 kw[f"l{j}"] = child
             elif k == "list":
                 kw[f"l{j}"] = [child] if go else []
